@@ -84,7 +84,7 @@ func hasName(list []string, n string) bool {
 func c16Mutate(rnd *rand.Rand, c *config.PikeConfig, origins []string, seq *c16Seq, removedSlots map[string]bool) string {
 	ops := []string{"srv_minlen_set", "srv_minlen_unset", "srv_filter_set", "srv_filter_unset", "srv_compress_set", "srv_compress_unset", "srv_cache_switch", "srv_locations_change",
 		"srv_add", "srv_remove", "loc_add", "loc_remove", "loc_rewrite_set", "loc_rewrite_unset", "loc_headers_set", "loc_headers_unset", "loc_query_set", "loc_query_unset", "loc_upstream_switch",
-		"up_add", "up_servers_change", "up_ae_set", "up_ae_unset", "cmp_add", "cmp_modify", "cmp_drop_level", "cmp_remove", "best_override", "best_remove", "srv_readd"}
+		"up_add", "up_servers_change", "up_ae_set", "up_ae_unset", "up_h2c_set", "up_h2c_unset", "cmp_add", "cmp_modify", "cmp_drop_level", "cmp_remove", "best_override", "best_remove", "srv_readd"}
 	for try := 0; try < 40; try++ {
 		op := ops[rnd.Intn(len(ops))]
 		slot := []string{"S1", "S2"}[rnd.Intn(2)]
@@ -248,6 +248,18 @@ func c16Mutate(rnd *rand.Rand, c *config.PikeConfig, origins []string, seq *c16S
 				u.AcceptEncoding = ""
 				return op + " " + u.Name
 			}
+		case "up_h2c_set":
+			u := &c.Upstreams[1+rnd.Intn(len(c.Upstreams)-1)]
+			if !u.EnableH2C {
+				u.EnableH2C = true
+				return op + " " + u.Name
+			}
+		case "up_h2c_unset":
+			u := &c.Upstreams[1+rnd.Intn(len(c.Upstreams)-1)]
+			if u.EnableH2C {
+				u.EnableH2C = false
+				return op + " " + u.Name
+			}
 		case "cmp_add":
 			if len(c.Compresses) < 3 {
 				n := "cmpB"
@@ -356,6 +368,8 @@ type c16Proc struct {
 	ports map[string]int
 	cl    *hx.Client
 	admin string
+	// readsAfterSave admin GET /config requests issued right after an in-place write
+	readsAfterSave int
 }
 
 func c16OriginScript(f *hx.Fetch) *hx.Reply {
@@ -415,7 +429,7 @@ func (p *c16Proc) probe(farm *hx.Farm, slot, uri, accept string) c16Outcome {
 		o.Hdr = strings.SplitN(string(res.Raw), ", message=", 2)[len(strings.SplitN(string(res.Raw), ", message=", 2))-1]
 	}
 	for _, f := range farm.ByReqID(res.ReqID) {
-		seen := []string{"origin" + strconv.Itoa(f.Server), f.URI}
+		seen := []string{"origin" + strconv.Itoa(f.Server), f.Proto, f.URI}
 		for _, k := range []string{"X-Added-Req", "Accept-Encoding"} {
 			if v := f.Header[k]; len(v) > 0 {
 				seen = append(seen, k+"="+strings.Join(v, "|"))
@@ -465,6 +479,12 @@ func (p *c16Proc) save(cfg *config.PikeConfig, method string, padTo *int) error 
 		f.Close()
 		if err != nil {
 			return err
+		}
+		if p.admin != "" && *padTo%2 == 0 {
+			// somebody looks at the configuration through the admin API right after the save (the
+			// reload is debounced, so this read lands before it)
+			p.cl.Do(hx.Req{Method: "GET", Addr: p.admin, URI: "/config", Timeout: 5 * time.Second})
+			p.readsAfterSave++
 		}
 	}
 	return nil
@@ -613,6 +633,12 @@ func c16Run(r *hx.Run, bin string, seq *c16Seq, rnd *rand.Rand) {
 				return "last compress profile removed: the compresses section is gone from the file"
 			},
 		}
+	case "upstream_h2c_toggled":
+		script = []func() string{
+			func() string { logical.Upstreams[1].EnableH2C = true; return "up_h2c_set u1" },
+			func() string { logical.Upstreams[1].EnableH2C = false; return "up_h2c_unset u1" },
+			func() string { logical.Upstreams[1].EnableH2C = true; return "up_h2c_set u1 again" },
+		}
 	case "save_during_slow_update":
 		script = []func() string{
 			func() string {
@@ -760,6 +786,7 @@ func c16Run(r *hx.Run, bin string, seq *c16Seq, rnd *rand.Rand) {
 	stop.Store(true)
 	twg.Wait()
 	r.Add("stable_traffic_requests_during_updates", trafficN.Load())
+	r.Add("admin_reads_of_the_configuration_right_after_a_save", int64(L.readsAfterSave))
 	methods := map[string]bool{}
 	for _, s := range seq.Steps {
 		methods[s.Method] = true
@@ -927,7 +954,7 @@ func c16Run(r *hx.Run, bin string, seq *c16Seq, rnd *rand.Rand) {
 }
 
 func c16(r *hx.Run) {
-	r.Rule = "two real pike processes per sequence. The live one starts on a base configuration (2 caches, 2 upstreams, 2 locations, 2 servers, 1 compress profile) and receives 2-6 random valid updates (30 mutation kinds: set/unset min length, filter, compress profile, cache, location list; add/remove server, location, upstream, compress profile; set/unset rewrites, added headers, added query, upstream Accept-Encoding, upstream server list; override/remove bestCompression) through the admin PUT /config or a single in-place write of the file, each completion observed through the update.done hook, under continuous traffic on an unchanged server; the fresh one is started on the final configuration. A probe suite derived from the final configuration (servers x 4 prefixes x sizes around the effective threshold x 3 content types x cacheable or not x Accept-Encoding, each twice) is run against both and compared field by field (status, label, encoding, encoded and decoded bytes, headers, which origin saw which path/query/headers), plus cache binding between servers, the retained hit of a key cached before the updates, and (one sequence) that a removed server stops listening. Ten directed sequences add: the last compress profile (an override of bestCompression) removed so that the whole section disappears from the saved file, bestCompression overridden then removed, a server removed and re-added, cache switch/rename, a level set then unset, two servers removed at once, a cache sharing a store removed, restart-only cache settings changed, and a configuration saved while the previous one (with an upstream whose health endpoint is slow) is still being applied. Non-trivial/distinct = step sequence."
+	r.Rule = "two real pike processes per sequence. The live one starts on a base configuration (2 caches, 2 upstreams, 2 locations, 2 servers, 1 compress profile) and receives 2-6 random valid updates (32 mutation kinds: set/unset min length, filter, compress profile, cache, location list; add/remove server, location, upstream, compress profile; set/unset rewrites, added headers, added query, upstream Accept-Encoding, upstream enableH2C, upstream server list; override/remove bestCompression) through the admin PUT /config or a single in-place write of the file, each completion observed through the update.done hook, under continuous traffic on an unchanged server; the fresh one is started on the final configuration. A probe suite derived from the final configuration (servers x 4 prefixes x sizes around the effective threshold x 3 content types x cacheable or not x Accept-Encoding, each twice) is run against both and compared field by field (status, label, encoding, encoded and decoded bytes, headers, which origin saw which path/query/headers), plus cache binding between servers, the retained hit of a key cached before the updates, and (one sequence) that a removed server stops listening. Eleven directed sequences add: enableH2C of an upstream set, unset and set again, the last compress profile (an override of bestCompression) removed so that the whole section disappears from the saved file, bestCompression overridden then removed, a server removed and re-added, cache switch/rename, a level set then unset, two servers removed at once, a cache sharing a store removed, restart-only cache settings changed, and a configuration saved while the previous one (with an upstream whose health endpoint is slow) is still being applied. Non-trivial/distinct = step sequence."
 	r.Assume = []string{"restart-only settings (cache size/hit-for-pass/store, server log format, admin) are never changed", "gzip/brotli are deterministic, so equal levels give equal bytes", "addresses differ between the two processes and are not compared"}
 	bin, err := hx.BuildPike(r.Scratch)
 	if err != nil {
@@ -939,7 +966,7 @@ func c16(r *hx.Run) {
 	n := r.Pick(8, 400)
 	sem := make(chan struct{}, 8)
 	var wg sync.WaitGroup
-	for i := 0; i < n+10 && !r.TooMany(); i++ {
+	for i := 0; i < n+11 && !r.TooMany(); i++ {
 		seq := &c16Seq{ID: i, CheckRemovedListener: i%8 == 0}
 		if i == n {
 			seq.Directed = "best_override_then_remove"
@@ -970,6 +997,9 @@ func c16(r *hx.Run) {
 		}
 		if i == n+9 {
 			seq.Directed = "compress_section_emptied"
+		}
+		if i == n+10 {
+			seq.Directed = "upstream_h2c_toggled"
 		}
 		seed := rnd.Int63()
 		wg.Add(1)
